@@ -1,5 +1,189 @@
 import TrustVerif.Lemmas.C13
 
+/-!
+# C13 — incremental analysis equals from-scratch analysis after any edit history
+
+Property theorems only.  `Model/C13.lean` mirrors the file-set bookkeeping of `trust_hir::Database`
+(`set_source_text`, `remove_source_text`, the lazy `prepare_salsa_project`, the two query entry
+paths) and of `trust_hir::Project`; `Spec` is the history-level definition of "the final texts".
+
+Salsa itself is not modelled: a query returns *what it reads* (`Reads`), and the real answer is
+taken to be a fixed function of that value (salsa soundness, DESIGN §4).  Under that assumption the
+theorems below say: after **every** history, every query reads exactly the id-sorted listing of the
+final texts (resp. the final text of its file), hence answers what a brand-new database loaded with
+the final texts answers.
+-/
 namespace TrustVerif.C13
+
+variable {Text : Type} [DecidableEq Text]
+
+/-- **The three views stay in sync (state clause of the property, every history).**  After any
+history `h` of `set / remove / query` operations there is one list `v` — strictly increasing file
+ids, exactly the files that have a final text, each with that text — such that the sorted
+`Database.sources`, the resolved `SalsaState.sources`, and `ProjectInputs.files` as seen by a
+project-keyed query (after the lazy re-sync of `with_synced_salsa_state`) all equal `v`; and
+`ProjectInputs.files`, whenever it exists at all, equals `v` even before that re-sync. -/
+theorem c13_view (h : List (Op Text)) :
+    ∃ v, Spec.IsListing (Spec.final h) v ∧
+      viewSources (run h) = v ∧
+      viewSalsa (run h) = some v ∧
+      viewProject (withSynced (run h)) = some (some v) ∧
+      (∀ p, (run h).project = some p → viewProject (run h) = some (some v)) := by
+  obtain ⟨i, hm⟩ := rel_run h
+  have hsrc := listing_congr hm (viewSources_listing i)
+  refine ⟨viewSources (run h), hsrc, rfl, ?_, ?_, ?_⟩
+  · obtain ⟨v', hv1, hv2⟩ := resolve_listing i
+    rw [listing_unique hsrc (listing_congr hm hv2)]
+    exact hv1
+  · obtain ⟨w1, w2, w3, w4, w5, w6⟩ := withSynced_fields i
+    obtain ⟨v', hv1, hv2⟩ := resolve_listing (inv_withSynced i)
+    rw [w1] at hv2
+    rw [w2] at hv1
+    rw [listing_unique hsrc (listing_congr hm hv2)]
+    simp [viewProject, w6, hv1]
+  · intro p hp
+    obtain ⟨v', hv1, hv2⟩ := resolve_listing i
+    rw [listing_unique hsrc (listing_congr hm hv2)]
+    simp [viewProject, hp, i.proj p hp, hv1]
+
+/-- **Every query reads the final texts (answer clause, every history, every query).**  After any
+history, a query for file `f` reads: nothing (the default answer) iff `f` has no final text;
+otherwise, for `analyze / diagnostics / type_of`, the id-sorted listing of *all* final texts, and
+for `file_symbols / expr_id_at_offset` the final text of `f`.  In particular it never panics. -/
+theorem c13_query_spec (h : List (Op Text)) (v : List (Nat × Text))
+    (hv : Spec.IsListing (Spec.final h) v) (k : QKind) (f : Nat) :
+    (query (run h) k f).2 = .ok (Spec.reads (Spec.final h) v k f) := by
+  obtain ⟨i, hm⟩ := rel_run h
+  exact (query_of_inv i hm hv k f).1
+
+/-- **Incremental = from scratch (main clause).**  Two histories with the same final texts —
+whatever additions, edits, removals, re-additions and interleaved queries they consist of — give the
+same answer to every query. -/
+theorem c13_fresh (h₁ h₂ : List (Op Text)) (hf : ∀ f, Spec.final h₁ f = Spec.final h₂ f)
+    (k : QKind) (f : Nat) :
+    (query (run h₁) k f).2 = (query (run h₂) k f).2 := by
+  obtain ⟨v, hv, _⟩ := c13_view h₁
+  rw [c13_query_spec h₁ v hv, c13_query_spec h₂ v (listing_congr hf hv)]
+  simp [Spec.reads, hf f]
+
+/-- **… in particular a brand-new database loaded with the final texts, in any order.**  `l` is any
+enumeration (without repetition) of the final texts of `h`. -/
+theorem c13_fresh_load (h : List (Op Text)) (l : List (Nat × Text)) (hn : (keys l).Nodup)
+    (hl : ∀ f t, (f, t) ∈ l ↔ Spec.final h f = some t) (k : QKind) (f : Nat) :
+    (query (run h) k f).2 = (query (run (loadFresh l)) k f).2 := by
+  apply c13_fresh
+  intro g
+  rw [final_loadFresh l hn]
+  cases hg : Spec.final h g with
+  | none =>
+    cases hl' : lookup l g with
+    | none => rfl
+    | some t => have := (hl g t).1 (mem_of_lookup hl'); rw [hg] at this; cases this
+  | some t => exact (lookup_of_mem hn ((hl g t).2 hg)).symm
+
+/-- The same statement for the *answers*, for every semantics `F` of the queries (the
+uninterpreted function that salsa soundness provides). -/
+theorem c13_answers {Ans : Type} (F : Reads Text → Ans) (h : List (Op Text))
+    (l : List (Nat × Text)) (hn : (keys l).Nodup)
+    (hl : ∀ f t, (f, t) ∈ l ↔ Spec.final h f = some t) (k : QKind) (f : Nat) :
+    (match (query (run h) k f).2 with | .ok r => some (F r) | .panic => none) =
+    (match (query (run (loadFresh l)) k f).2 with | .ok r => some (F r) | .panic => none) := by
+  rw [c13_fresh_load h l hn hl]
+
+/-- **No panic in the bookkeeping (panic clause, Database layer only).**  After any history the
+`expect("project inputs should be initialized")` of `project_inputs` is never reached with `None`,
+and no query dereferences a `SourceInput` that was not created. -/
+theorem c13_no_panic (h : List (Op Text)) (k : QKind) (f : Nat) :
+    (query (run h) k f).2 ≠ .panic := by
+  obtain ⟨v, hv, _⟩ := c13_view h
+  rw [c13_query_spec h v hv]
+  intro hc
+  cases hc
+
+/-- **Repeating a query (repeat clause).**  In *every* state (reachable or not) a query leaves a
+state in which the same query changes nothing and returns the same result. -/
+theorem c13_repeat (s : Db Text) (k : QKind) (f : Nat) :
+    query (query s k f).1 k f = query s k f := by
+  cases hk : k.projectKeyed with
+  | true =>
+    have hfst : (query s k f).1 = withSynced s := by
+      unfold query
+      simp only [hk, if_true]
+      split
+      · split
+        · rfl
+        · split <;> rfl
+      · rfl
+    rw [hfst]
+    unfold query
+    simp only [hk, if_true, withSynced_idem]
+  | false =>
+    unfold query
+    simp only [hk, Bool.false_eq_true, if_false]
+    unfold sourceHandleForFile
+    cases hs : lookup s.salsaSrc f with
+    | some hd =>
+      simp only
+      cases hi : lookup s.inputs hd <;> simp [hs, hi]
+    | none =>
+      simp only
+      unfold sourceInputForFile
+      simp only [hs]
+      cases hsrc : lookup s.sources f with
+      | none => simp [hs, hsrc]
+      | some t => simp [newInput, syncProjectInputs, lookup_insert]
+
+/-- **Queries in any order, anywhere (interleaving clause).**  Deleting a query from a history
+changes no later answer: which queries were memoised before which edit is irrelevant to what later
+queries read. -/
+theorem c13_queries_transparent (h₁ h₂ : List (Op Text)) (k k' : QKind) (f f' : Nat) :
+    (query (run (h₁ ++ .query k f :: h₂)) k' f').2 = (query (run (h₁ ++ h₂)) k' f').2 := by
+  apply c13_fresh
+  intro g
+  simp [Spec.final, List.foldl_append, Spec.step]
+
+/-- **The lazy re-sync is only ever pending on a database that never held a file.**  So on every
+reachable state `prepare_salsa_project` does nothing but create the (empty) `ProjectInputs`:
+`set_source_text` / `remove_source_text` keep the salsa inputs in sync eagerly. -/
+theorem c13_lazy_sync_only_when_empty (h : List (Op Text)) :
+    ((run h).synced ≠ (run h).rev → (run h).sources = [] ∧ (run h).project = none) ∧
+    prepareSalsaProject (run h) =
+      if (run h).project.isNone then syncProjectInputs (run h) else run h := by
+  obtain ⟨i, _⟩ := rel_run h
+  exact ⟨i.lazy, prepareSalsaProject_of_inv i⟩
+
+/-! ### Non-vacuity -/
+
+/-- A history with an edit, a removal, a re-addition and interleaved queries; its final texts,
+their listing, and what a project-keyed query on file 7 reads (`Text := Nat`). -/
+example :
+    let h : List (Op Nat) :=
+      [.set 7 10, .set 3 20, .query .analyze 7, .set 3 21, .remove 7, .query .fileSymbols 7,
+       .set 7 11, .query (.typeOf 4) 3]
+    Spec.final h 3 = some 21 ∧ Spec.final h 7 = some 11 ∧ Spec.final h 5 = none ∧
+      viewSources (run h) = [(3, 21), (7, 11)] ∧
+      (query (run h) .diagnostics 7).2 = .ok (.proj .diagnostics [(3, 21), (7, 11)] 7) ∧
+      (query (run h) .fileSymbols 3).2 = .ok (.file .fileSymbols 21) ∧
+      (query (run h) .analyze 5).2 = .ok (.dflt .analyze) := by
+  decide
+
+/-- `c13_fresh_load` is not vacuous: a listing in *descending* order satisfies its hypotheses. -/
+example :
+    let h : List (Op Nat) := [.set 7 10, .set 3 20, .remove 7, .set 7 11]
+    let l : List (Nat × Nat) := [(7, 11), (3, 20)]
+    (keys l).Nodup ∧ (∀ f, Spec.final h f = lookup l f) ∧
+      (query (run h) .analyze 3).2 = (query (run (loadFresh l)) .analyze 3).2 := by
+  refine ⟨by decide, ?_, by decide⟩
+  intro f
+  by_cases h7 : f = 7
+  · subst h7; decide
+  · by_cases h3 : f = 3
+    · subst h3; decide
+    · simp [Spec.final, Spec.step, lookup, h7, h3, Ne.symm h7, Ne.symm h3]
+
+/-- The pristine state is the one on which the lazy path runs: the first project-keyed query on a
+new database creates an empty `ProjectInputs` (and does not panic). -/
+example : (query (Db.new : Db Nat) .analyze 0).1.project = some [] ∧
+    (query (Db.new : Db Nat) .analyze 0).2 = .ok (.dflt .analyze) := by decide
 
 end TrustVerif.C13
